@@ -65,4 +65,55 @@ def teeWrite (t : Tee) (chunk : Bytes) : Tee := { a := t.a ++ chunk, b := t.b ++
 
 def teeRun (chunks : List Bytes) : Tee := chunks.foldl teeWrite Tee.init
 
+/-! ## targets that may accept only a prefix (short writes)
+
+A target `io::Write` is its content plus a *behaviour script*: one entry per `write` call it will receive — `0` = the call
+fails with `ErrorKind::Interrupted` (which `write_all` retries), `k + 1` = the call accepts at most `k + 1` bytes of what it
+is offered (never `Ok(0)` for a non-empty buffer: that is an error). An exhausted script accepts everything. `TeeWrite` and
+`MappedWrite` hand bytes to their targets with `write_all`. -/
+
+/-- `io::Write::write_all` against a scripted target: returns the target's content and the rest of its script -/
+def writeAll : List Nat → Bytes → Bytes → Bytes × List Nat
+  | script, got, [] => (got, script)
+  | [], got, buf => (got ++ buf, [])
+  | 0 :: rest, got, b :: bs => writeAll rest got (b :: bs)
+  | (k + 1) :: rest, got, b :: bs => writeAll rest (got ++ (b :: bs).take (k + 1)) ((b :: bs).drop (k + 1))
+
+/-- a `TeeWrite` over two scripted targets -/
+structure TeeS where
+  a : Bytes
+  b : Bytes
+  sa : List Nat
+  sb : List Nat
+deriving DecidableEq, Repr
+
+/-- `TeeWrite::write`: `inner_a.write_all(buf)?; inner_b.write_all(buf)?; Ok(buf.len())` -/
+def teeWriteS (t : TeeS) (chunk : Bytes) : TeeS :=
+  let ra := writeAll t.sa t.a chunk
+  let rb := writeAll t.sb t.b chunk
+  ⟨ra.1, rb.1, ra.2, rb.2⟩
+
+def teeRunS (sa sb : List Nat) (chunks : List Bytes) : TeeS := chunks.foldl teeWriteS ⟨[], [], sa, sb⟩
+
+/-- a `MappedWrite` over a scripted inner writer -/
+structure StS where
+  buf : Bytes
+  out : Bytes
+  script : List Nat
+deriving DecidableEq, Repr
+
+def stepByteS (m : Nat) (f : Bytes → Bytes) (s : StS) (b : Nat) : StS :=
+  if b = m then
+    let r := writeAll s.script s.out (f (s.buf ++ [b]))
+    { buf := [], out := r.1, script := r.2 }
+  else { s with buf := s.buf ++ [b] }
+
+def writeS (m : Nat) (f : Bytes → Bytes) (s : StS) (chunk : Bytes) : StS := chunk.foldl (stepByteS m f) s
+
+def finishS (f : Bytes → Bytes) (s : StS) : Bytes :=
+  if s.buf.isEmpty then s.out else (writeAll s.script s.out (f s.buf)).1
+
+def runS (m : Nat) (f : Bytes → Bytes) (script : List Nat) (chunks : List Bytes) : Bytes :=
+  finishS f (chunks.foldl (writeS m f) ⟨[], [], script⟩)
+
 end CnbVerif.MW
